@@ -114,6 +114,14 @@ def gen_case(rng, kind=None, backend=None):
             idx = sorted(rng.sample(range(n), rng.randint(2, max(2, n - 2))))
             ops.append({"op": "subset", "member": m, "indices": idx, "values": [str(Fraction(rng.randint(-20, 20), 2)) for _ in idx]})
     spec = {"kind": kind, "backend": backend, "dt": dt, "axis": axis, "k": k, "E": E, "series": series, "ops": ops if kind == "opt" else []}
+    if kind == "sim" and rng.random() < 0.5:
+        # manual stepping with steps that span several import intervals
+        left, mult = n - 1 - k, []
+        while left > 0:
+            m = min(left, rng.choice([1, 2, 1, 3]))
+            mult.append(m)
+            left -= m
+        spec["multiples"] = mult
     if kind == "opt" and backend == "csv" and rng.random() < 0.6:
         # initial_state.csv for some of the members only: it overrides that member's history at t0
         spec["initial_state"] = [None if rng.random() < 0.45 else {"x": str(Fraction(rng.randint(-12, 12), 4))} for _ in range(E)]
@@ -392,7 +400,14 @@ def run_sim(spec):
                 return o
 
         p = S(**kwargs)
-        p.simulate()
+        if spec.get("multiples"):
+            p.pre()
+            p.initialize()
+            for m in spec["multiples"]:
+                p.update(-1) if m == 1 else p.update(float(m * spec["dt"]))
+            p.post()
+        else:
+            p.simulate()
         obs = {"datetimes": [secs(t) for t in p.io.datetimes], "reference": secs(p.io.reference_datetime),
                "times_sec": [float(t) for t in p.io.times_sec], "times": [float(t) for t in p.times()]}
         r = p.extract_results()
@@ -499,6 +514,10 @@ def compare(ctx, spec, obs, vals, keys):
                 bad.append(("axis/times_sec", obs["times_sec"], ts))
             if obs["times"] != [float(t) for t in hz] or (obs["times"] and obs["times"][0] != 0.0):
                 bad.append(("axis/horizon", obs["times"], hz))
+            if spec.get("multiples"):
+                # rows are written at the stamps the manual steps reached
+                at = [sum(spec["multiples"][:i]) for i in range(len(spec["multiples"]) + 1)]
+                stamps = [stamps[i] for i in at]
             for m, ex in obs["export"].items():
                 if ex["stamps"] != stamps:
                     bad.append(("export/stamps", ex["stamps"], stamps))
@@ -573,6 +592,12 @@ def check_sim(spec, obs):
     """the recorded outputs follow the fed input: y(t) = 2 q(t) + 1, w(t+dt) = w(t) + q(t+dt)"""
     bad = []
     q = [fl(v) for v in spec["series"]["0"]["q"]][spec["k"]:]
+    if spec.get("multiples"):
+        at = [sum(spec["multiples"][:i]) for i in range(len(spec["multiples"]) + 1)]
+        steps = [1] + spec["multiples"]
+        q = [q[i] for i in at]
+    else:
+        steps = [1] * len(q)
     y = obs["results"]["0"]["y"]
     w = obs["results"]["0"]["w"]
     if len(y) != len(q):
@@ -583,7 +608,7 @@ def check_sim(spec, obs):
             bad.append(("sim/input-feed", [i, y[i]], 2 * q[i] + 1))
             break
     for i in range(1, len(q)):
-        if not math.isnan(q[i]) and abs(w[i] - (w[i - 1] + q[i])) > 1e-6:
+        if not math.isnan(q[i]) and abs(w[i] - (w[i - 1] + steps[i] * q[i])) > 1e-6:
             bad.append(("sim/step-input", [i, w[i]], w[i - 1] + q[i]))
             break
     return bad
